@@ -97,7 +97,7 @@ def _case(c, pool):
         g.lst([_err(t, pool) for t in (c["errs"] or [])]), g.lst([pool.s(f) for f in (c["summaries"] or [])]))
 
 
-OBL = g.HEADER + """From Crem Require Import Base.Res Params Catchment Limits ConfigLoops Config ConfigProofs.
+OBL = g.HEADER + """From Crem Require Import Base.Res Params Catchment Limits ConfigLoops Config ConfigSpec ConfigProofs.
 From CremGen Require Import Specs19 Facts19.
 Open Scope string_scope.
 
@@ -126,7 +126,7 @@ Theorem C19_crem_accepted_runs_partial : forall E c l sc choices T0 a,
   load facts19 c = Done l -> interpret facts19 tables19 E l = Done sc ->
   nodupb (map fst (l_annealer_params l)) = true -> nodupb (map fst (l_model_params l)) = true ->
   run_preconditions E sc = true -> choices_ok sc choices ->
-  exists summaries, run_model E sc choices T0 a = Completed summaries /\\ length summaries = Z.to_nat (l_run_number l)
+  exists summaries, run_model E sc choices T0 a = Completed summaries /\\ List.length summaries = Z.to_nat (l_run_number l)
                     /\\ (1 <= l_run_number l)%%Z.
 Proof. exact (accepted_runs facts19 tables19 C19_facts_ok C19_tables_ok). Qed.
 
@@ -140,7 +140,7 @@ Print Assumptions C19_crem_accepted_runs_partial.
 OBL_NAMES = ["C19_facts_ok", "C19_tables_ok", "C19_crem_load_never_panics", "C19_crem_interpret_never_panics_partial",
              "C19_crem_accepted_runs_partial"]
 
-DIAG = g.HEADER + """From Crem Require Import Base.Res Params ConfigLoops Config ConfigProofs.
+DIAG = g.HEADER + """From Crem Require Import Base.Res Params ConfigLoops Config ConfigSpec ConfigProofs.
 From CremGen Require Import Specs19 Facts19.
 Definition tables19 : tables := %(tables)s.
 Definition D := Eval vm_compute in (facts_diagnosis facts19, tables_diagnosis tables19).
@@ -237,7 +237,8 @@ def run(ctx):
     if compiled and dsl and cases:
         dterm = cg.dataset(dsl[0])
         jobs = []
-        for si, shard in enumerate(g.chunks(cases, SHARD)):
+        nsh = max(1, (len(cases) + SHARD - 1) // SHARD)
+        for si, shard in enumerate([cases[k::nsh] for k in range(nsh)]):   # round robin: the costly limit documents are spread
             pool = Pool()
             items = [_case(c, pool) for c in shard]
             body = cg.HEADER + "From Coq Require Import String.\nFrom Crem Require Import Base.Res Params ConfigLoops Config ConfigCorr.\n" \
